@@ -629,6 +629,9 @@ BODIES = [
     ("RePair_compareDAC", "RePair/RePair.cpp", "RePair::extractStringAndCompareDAC", 0),
     ("RePair_compareRule", "RePair/RePair.cpp", "RePair::expandRuleAndCompareString", 0),
     ("RePair_expandRule", "RePair/RePair.cpp", "RePair::expandRule", 0),
+    ("RPDAC_locatePrefix", "StringDictionaryRPDAC.cpp", "StringDictionaryRPDAC::locatePrefix", 0),
+    ("RePair_comparePrefixDAC", "RePair/RePair.cpp", "RePair::extractPrefixAndCompareDAC", 0),
+    ("RePair_comparePrefixRule", "RePair/RePair.cpp", "RePair::expandRuleAndComparePrefixDAC", 0),
     ("PFC_locate", "StringDictionaryPFC.cpp", "StringDictionaryPFC::locate", 0),
     ("PFC_extract", "StringDictionaryPFC.cpp", "StringDictionaryPFC::extract", 0),
     ("PFC_locateBucket", "StringDictionaryPFC.cpp", "StringDictionaryPFC::locateBucket", 0),
